@@ -724,6 +724,7 @@ func genSearcherSpec(t *rapid.T, alpha []byte, words []word) searcherSpec {
 }
 
 func genSearchCase(t *rapid.T) searchCase {
+	wideAll := false
 	alpha := genAlphabet(t)
 	if len(alpha) > 5 {
 		alpha = alpha[:5]
@@ -734,6 +735,8 @@ func genSearchCase(t *rapid.T) searchCase {
 		alpha = []byte("abcdefghijklmnopqrst")
 	case 1: // long words: positions beyond 32 and 64
 		maxLen = rapid.SampledFrom([]int{34, 40, 70, 70, 130, 260, 300}).Draw(t, "maxlen")
+	case 2: // a node with 129..256 links whose high links lead on to longer words
+		wideAll = true
 	}
 	nwords := sz(14, 40)
 	if rare(t, "manywords", uint64(sz(40, 12))) {
@@ -754,6 +757,22 @@ func genSearchCase(t *rapid.T) searchCase {
 			}
 		}
 		words = sortedWords(set)
+	}
+	if wideAll {
+		set := map[word]bool{}
+		for _, w := range words {
+			set[w] = true
+		}
+		pre := genWordOver(t, alpha, 1)
+		lo := rapid.SampledFrom([]int{0, 0, 100, 127}).Draw(t, "lowestlink")
+		for x := lo; x < 256; x++ {
+			set[pre+word([]byte{byte(x)})] = true
+			if x >= 120 && rapid.IntRange(0, 3).Draw(t, "deeper") == 0 {
+				set[pre+word([]byte{byte(x)})+genWordOver(t, alpha, 2)] = true
+			}
+		}
+		words = sortedWords(set)
+		alpha = append(append([]byte{}, alpha...), 128, 200, 254, 255)
 	}
 	n := rapid.SampledFrom([]int{0, 1, 1, 1, 1, 2, 2, 3}).Draw(t, "nsearchers")
 	c := searchCase{Words: words}
@@ -962,8 +981,11 @@ func genGobCase(t *rapid.T) gobCase {
 		}
 	case "wide":
 		// one node with exactly k children, k around the 1-byte varint boundary
-		k := rapid.SampledFrom([]int{1, 2, 126, 127, 128, 129, 130, 200, 255, 256}).Draw(t, "children")
+		k := rapid.SampledFrom([]int{1, 2, 31, 32, 33, 63, 64, 65, 126, 127, 128, 129, 130, 200, 255, 256}).Draw(t, "children")
 		prefix := genWordOver(t, alpha, 2)
+		if rapid.Bool().Draw(t, "widefinal") {
+			set[prefix] = true // the wide node itself ends a word
+		}
 		start := rapid.IntRange(0, 256-k).Draw(t, "start")
 		for i := 0; i < k; i++ {
 			w := prefix + word([]byte{byte(start + i)})
@@ -973,9 +995,12 @@ func genGobCase(t *rapid.T) gobCase {
 			set[w] = true
 		}
 		if rapid.Bool().Draw(t, "second") { // a second wide node deeper down
-			k2 := rapid.SampledFrom([]int{127, 128, 129, 256}).Draw(t, "children2")
+			k2 := rapid.SampledFrom([]int{64, 65, 127, 128, 129, 256}).Draw(t, "children2")
 			for i := 0; i < k2; i++ {
 				set[prefix+"zz"+word([]byte{byte(i)})] = true
+			}
+			if rapid.Bool().Draw(t, "widefinal2") {
+				set[prefix+"zz"] = true
 			}
 		}
 	case "manynodes":
